@@ -69,7 +69,12 @@ func (ch *Checker) balance(a *model.Assertion, bal *model.Balance) error {
 	if ch.NoCheck {
 		return nil
 	}
-	if qty, ok := ch.quantities[position]; !ok || !qty.Equal(bal.Quantity) {
+	if !bal.Account.IsAL() {
+		// quantities are tracked for asset and liability accounts only
+		return nil
+	}
+	// a position without bookings is the zero decimal
+	if qty := ch.quantities[position]; !qty.Equal(bal.Quantity) {
 		return Error{Directive: a, Msg: fmt.Sprintf("failed assertion: %s has position: %s %s", position.Account.Name(), qty, position.Commodity.Name())}
 	}
 	return nil
